@@ -31,16 +31,21 @@ package sbom
 //@   ensures result != nil
 
 //@ func Edge.Copy
-//@   props C11, C12
+//@   props C11, C12, C08, C09, C10
 //@   assigns \nothing
 //@   owns
 //@   ensures result != nil
+//@   ensures [fresh] fresh(result)
+//@   ensures [freshTo] arr(result.To) == nil || fresh(arr(result.To))
+//@   ensures [C09:copy:edge] result.From == e.From && result.Type == e.Type && len(result.To) == len(e.To) && (forall j int :: 0 <= j && j < len(e.To) ==> result.To[j] == e.To[j])
 
 //@ func Node.Copy
-//@   props C11, C12
+//@   props C11, C12, C08, C09, C10
 //@   assigns \nothing
 //@   owns
 //@   ensures result != nil
+//@   ensures [fresh] fresh(result)
+//@   ensures-each Node[string,enum,int,bool]: [C09:copy:$f] result.$f == n.$f
 
 //@ func NodeList.Copy
 //@   props C11, C12
@@ -49,10 +54,11 @@ package sbom
 //@   ensures result != nil
 
 //@ func copyEdgeList
-//@   props C11, C12
+//@   props C11, C12, C08, C09, C10
 //@   inline
 //@   assigns \nothing
 //@   owns
+//@   invariant L0: forall e *Edge :: (e in elems(edgeCopy)) ==> e != nil && fresh(e) && allocated(e) && allocated(arr(e.To)) && (arr(e.To) == nil || fresh(arr(e.To)))
 
 //@ func copyNodeSlice
 //@   props C11, C12
@@ -61,10 +67,38 @@ package sbom
 //@   owns
 
 //@ func NodeList.Union
-//@   props C11, C12
+//@   props C11, C12, C08, C09
 //@   requires nl2 != nil
 //@   assigns \nothing
 //@   owns
+//@   requires validNL(nl) && validNL(nl2)
+//@   ensures [C09:union:result] result != nil && fresh(result) && validNL(result)
+//@   ensures [C09:union:ids] forall x string :: (x in fieldset(result.Nodes, Id)) <==> ((x in fieldset(nl.Nodes, Id)) || (x in fieldset(nl2.Nodes, Id)))
+//@   ensures [C09:union:roots] forall r string :: (r in elems(result.RootElements)) <==> ((r in elems(nl.RootElements)) || (r in elems(nl2.RootElements)))
+//@   ensures [C08:union:rootsClosed] closedRoots(nl) && closedRoots(nl2) ==> closedRoots(result)
+//@   ensures [C08:union:edgesClosed] closedEdges(result)
+//@   invariant L0: allocated(arr(ret.RootElements)) && (forall e *Edge :: (e in elems(ret.Edges)) ==> fresh(e) && allocated(e) && (arr(e.To) == nil || (fresh(arr(e.To)) && arr(e.To) != arr(ret.RootElements))))
+//@   invariant L0: forall r string :: (r in elems(ret.RootElements)) <==> (r in elems(nl.RootElements))
+//@   invariant L1: allocated(arr(ret.RootElements)) && (forall e *Edge :: (e in elems(ret.Edges)) ==> fresh(e) && allocated(e) && (arr(e.To) == nil || (fresh(arr(e.To)) && arr(e.To) != arr(ret.RootElements))))
+//@   invariant L1: forall r string :: (r in elems(ret.RootElements)) <==> (r in elems(nl.RootElements))
+//@   invariant L2: allocated(arr(ret.RootElements)) && (forall e *Edge :: (e in elems(ret.Edges)) ==> fresh(e) && allocated(e) && (arr(e.To) == nil || (fresh(arr(e.To)) && arr(e.To) != arr(ret.RootElements))))
+//@   invariant L2: forall r string :: (r in elems(ret.RootElements)) <==> (r in elems(nl.RootElements))
+//@   invariant L3: allocated(arr(ret.RootElements)) && (forall e *Edge :: (e in elems(ret.Edges)) ==> fresh(e) && allocated(e) && (arr(e.To) == nil || (fresh(arr(e.To)) && arr(e.To) != arr(ret.RootElements))))
+//@   invariant L3: forall r string :: (r in elems(ret.RootElements)) <==> (r in elems(nl.RootElements))
+//@   invariant L3: (existingEdge in elems(ret.Edges))
+//@   invariant L4: forall r string :: (r in elems(ret.RootElements)) <==> ((r in elems(nl.RootElements)) || (r in elemsn(nl2.RootElements, _i)))
+//@   invariant L4: forall k string :: (k in rootNodes) ==> (k in elems(nl.RootElements))
+//@   ensures [C08:union:normalised] normalisedNL(result)
+//@   invariant L0: !(nil in elems(ret.Nodes)) && !(nil in elems(ret.Edges)) && (forall p *Node :: (p in elems(ret.Nodes)) ==> fresh(p))
+//@   invariant L0: (forall x string :: (x in fieldset(ret.Nodes, Id)) <==> (x in fieldsetn(nl.Nodes, Id, _i)))
+//@   invariant L1: !(nil in elems(ret.Nodes)) && !(nil in elems(ret.Edges)) && (forall p *Node :: (p in elems(ret.Nodes)) ==> fresh(p))
+//@   invariant L1: (forall x string :: (x in fieldset(ret.Nodes, Id)) <==> ((x in fieldset(nl.Nodes, Id)) || (x in fieldsetn(nl2.Nodes, Id, _i))))
+//@   invariant L1: forall k string :: (k in nodeindex) ==> (k in fieldset(nl.Nodes, Id))
+//@   invariant L1: nodeindex != nil && fresh(nodeindex) && (forall k string :: (k in nodeindex) ==> nodeindex[k] != nil && fresh(nodeindex[k]) && nodeindex[k].Id == k && (nodeindex[k] in elems(ret.Nodes)))
+//@   invariant L2: !(nil in elems(ret.Edges))
+//@   invariant L3: !(nil in elems(ret.Edges)) && existingEdge != nil
+//@   invariant L4: validNL(ret) && closedEdges(ret) && normalisedNL(ret)
+//@   invariant L4: (forall e *Edge :: (e in elems(ret.Edges)) ==> arr(e.To) != arr(ret.RootElements) || arr(e.To) == nil)
 
 //@ func NodeList.Intersect
 //@   props C11, C12
@@ -209,6 +243,8 @@ package sbom
 //@   assigns \nothing
 //@   ensures [C08:indexNodes:keys] result != nil && fresh(result) && (forall k string :: (k in result) <==> (k in fieldset(nl.Nodes, Id)))
 //@   invariant L0: ret != nil && fresh(ret) && (forall k string :: (k in ret) <==> (k in fieldsetn(nl.Nodes, Id, _i)))
+//@   invariant L0: forall k string :: (k in ret) ==> ret[k] != nil && ret[k].Id == k && (ret[k] in elemsn(nl.Nodes, _i))
+//@   ensures [C08:indexNodes:values] forall k string :: (k in result) ==> result[k] != nil && result[k].Id == k && (result[k] in elems(nl.Nodes))
 
 //@ func NodeList.indexEdges
 //@   props C11, C04, C08
@@ -222,9 +258,11 @@ package sbom
 //@   invariant L0: forall f string, t Edge_Type :: (f in index) && (t in index[f]) ==> index[f][t][0] != nil && (index[f][t][0] in elems(nl.Edges))
 
 //@ func NodeList.indexRootElements
-//@   props C11
+//@   props C11, C08
 //@   inline
 //@   assigns \nothing
+//@   ensures [C08:indexRoots:keys] result != nil && fresh(result) && (forall k string :: (k in result) <==> (k in elems(nl.RootElements)))
+//@   invariant L0: index != nil && fresh(index) && (forall k string :: (k in index) <==> (k in elemsn(nl.RootElements, _i)))
 
 //@ func NodeList.indexNodesByHash
 //@   props C11
